@@ -716,13 +716,19 @@ def install(I):
             c = I.compare(st, 'Lt', kb, ka)
             pick_if = (b, a) if which == 'min' else (a, b)
             if c.is_const():
-                return pick_if[0] if c.value() else pick_if[1]
+                r = pick_if[0] if c.value() else pick_if[1]
+                st.events.append(('minmax', which, a, b, r, ctx.loc, ctx.fr.f['name']))
+                return r
             outs = []
             s2 = st.clone()
             if I.assume(s2, c.bits[0], 1) and not s2.dead:
-                outs.append(ctx.ret(I_resub(I, s2, pick_if[0]), s2))
+                r = I_resub(I, s2, pick_if[0])
+                s2.events.append(('minmax', which, a, b, r, ctx.loc, ctx.fr.f['name']))
+                outs.append(ctx.ret(r, s2))
             if I.assume(st, c.bits[0], 0) and not st.dead:
-                outs.append(ctx.ret(I_resub(I, st, pick_if[1])))
+                r = I_resub(I, st, pick_if[1])
+                st.events.append(('minmax', which, a, b, r, ctx.loc, ctx.fr.f['name']))
+                outs.append(ctx.ret(r))
             return outs
         return f
 
